@@ -99,6 +99,7 @@ func Run(c *ev.Ctx) {
 	n3 := cmdlib.NodeSpec{Node: "n3"}
 	web := cmdlib.SvcSpec{Name: "web", Port: 80}
 	web81 := cmdlib.SvcSpec{Name: "web", Port: 81}
+	proxyOther := cmdlib.SvcSpec{ID: cmdlib.FProxy.ID, Name: "web-proxy", Kind: structs.ServiceKindConnectProxy, DestName: "web", Upstreams: []string{"cache"}, Port: 21000}
 	db := cmdlib.SvcSpec{Name: "db", Port: 5432}
 	c1 := cmdlib.CheckSpec{ID: "c1", Status: api.HealthPassing}
 	c1crit := cmdlib.CheckSpec{ID: "c1", Status: api.HealthCritical}
@@ -182,6 +183,11 @@ func Run(c *ev.Ctx) {
 		part{tp: cmdlib.TxnService(api.ServiceCAS, "n1", cmdlib.SvcSpec{Name: "api", Port: 3}, cmdlib.IdxStale), staleTable: "services", staleRow: `ServiceID:"api"`},
 		part{tp: cmdlib.TxnCheck(api.CheckGet, "n1", sc1, 0), noop: true, read: true},
 		part{tp: cmdlib.TxnSessionDelete("s1"), equiv: eq(cmdlib.SessionDestroy("s1"))},
+		// mesh rows: derived tables (upstream/downstream topology with per-instance references, kind names, virtual
+		// IPs, gateway links) are edited by these verbs; a rolled-back transaction must leave them alone too
+		part{tp: cmdlib.TxnService(api.ServiceDelete, "n1", cmdlib.FProxy, 0), equiv: eq(cmdlib.DeregService("n1", cmdlib.FProxy.ID, ""))},
+		part{tp: cmdlib.TxnService(api.ServiceSet, "n1", proxyOther, 0), equiv: eq(cmdlib.RegServiceSkipNode("n1", proxyOther))},
+		part{tp: cmdlib.TxnNode(api.NodeDelete, n2, 0), equiv: eq(cmdlib.DeregNode("n2", ""))},
 	)
 
 	// ---- phase 1: pre-states -----------------------------------------------------------------
@@ -199,7 +205,10 @@ func Run(c *ev.Ctx) {
 	seed2 := append(append([]world.Op{}, seed1...),
 		cmdlib.RegCheck(n1, cmdlib.CheckSpec{ID: "sc2", Status: api.HealthPassing, ServiceID: "web"}), cmdlib.RegCheck(n1, cmdlib.CheckSpec{ID: "sc2", Status: api.HealthCritical, ServiceID: "web"}),
 		cmdlib.RegService(n1, cmdlib.SvcSpec{Name: "api", Port: 1}), cmdlib.RegService(n1, cmdlib.SvcSpec{Name: "api", Port: 2}))
-	seeds := [][]world.Op{nil, {cmdlib.RegNode(n1)}, seed1, seed2}
+	// two sidecar instances of web sharing the upstream db, a connect-native service and a terminating gateway entry
+	seed3 := append(append([]world.Op{}, seed1...), cmdlib.RegNode(n2), cmdlib.RegService(n1, cmdlib.FProxy), cmdlib.RegService(n2, cmdlib.FProxy2),
+		cmdlib.RegService(n2, cmdlib.SvcSpec{ID: "db", Name: "db", Port: 5432, Native: true}))
+	seeds := [][]world.Op{nil, {cmdlib.RegNode(n1)}, seed1, seed2, seed3}
 	d1 := 1
 	if !quick {
 		d1 = 2
